@@ -32,6 +32,16 @@ var contents = [][]byte{
 	[]byte("*."), []byte("xn--"), {0x01, 0x02, 0x03},
 }
 
+// boundary values for INTEGER leaves (two's complement, minimal encodings): 0, 1, −1, 127, 128, 255, 256, 2^31−1, 2^31,
+// 2^32, 2^62, 2^63−1, −2^63, 2^64
+var intBoundaries = [][]byte{
+	{0x00}, {0x01}, {0xff}, {0x7f}, {0x00, 0x80}, {0x00, 0xff}, {0x01, 0x00}, {0x7f, 0xff, 0xff, 0xff}, {0x00, 0x80, 0x00, 0x00, 0x00},
+	{0x01, 0x00, 0x00, 0x00, 0x00}, {0x40, 0, 0, 0, 0, 0, 0, 0}, {0x7f, 0xff, 0xff, 0xff, 0xff, 0xff, 0xff, 0xff}, {0x80, 0, 0, 0, 0, 0, 0, 0},
+	{0x01, 0, 0, 0, 0, 0, 0, 0, 0},
+}
+var intPairA = [][]byte{{0x00}, {0x01}, {0xff}, {0x7f, 0xff, 0xff, 0xff, 0xff, 0xff, 0xff, 0xff}}
+var intPairB = [][]byte{{0x00}, {0xff}, {0x40, 0, 0, 0, 0, 0, 0, 0}, {0x7f, 0xff, 0xff, 0xff, 0xff, 0xff, 0xff, 0xff}, {0x80, 0, 0, 0, 0, 0, 0, 0}}
+
 // reduced content alphabets of the compound edit dupMod (it already costs two positions per edit)
 var dupModSet = [][]byte{{}, {0x00}, {0xC2}, {0x2A}, {0x20}, {0x2E}, []byte("a@")}
 var dupModAppend = [][]byte{{0x00}, {0xC2}, {0x20}, {0x2E}}
@@ -252,6 +262,35 @@ func Successors(root, sub *Node, emit Emit) {
 					out(fmt.Sprintf("append:%x", c))
 				}
 				*n = saved
+			}
+		}
+		// INTEGER / ENUMERATED leaves: the boundary values of the machine integers a lint converts them to
+		if prim && n.Class == 0 && (n.Tag == 2 || n.Tag == 10) {
+			for _, c := range intBoundaries {
+				n.Wrapped, n.BitPad, n.Children = false, false, nil
+				if !bytes.Equal(c, rawContent) {
+					n.Content = c
+					out(fmt.Sprintf("int:%x", c))
+				}
+				*n = saved
+			}
+			// two INTEGER siblings at once (amount and exponent, numerator and denominator, modulus and exponent …): one
+			// deviation "this pair of numbers is extreme", over a small product
+			if p != nil && len(p.Children) <= 8 {
+				for j := e.idx + 1; j < len(p.Children); j++ {
+					m := p.Children[j]
+					if m.Constructed || m.Wrapped || m.Class != 0 || (m.Tag != 2 && m.Tag != 10) {
+						continue
+					}
+					savedM := *m
+					for _, va := range intPairA {
+						for _, vb := range intPairB {
+							n.Content, m.Content = va, vb
+							out(fmt.Sprintf("int2:%d:%x:%x", j, va, vb))
+						}
+					}
+					*n, *m = saved, savedM
+				}
 			}
 		}
 		if isStringLeaf(n) {
